@@ -1,6 +1,8 @@
 #!/bin/bash
-# tools/coqchk.sh : re-check every compiled Props module, every link module of coq/gen (compiled by the checks that use them) and everything
-# they depend on with Coq's independent checker; prints the axiom summary
-cd /verif/coq && timeout 3000 coqchk -silent -o -Q theories UJ -Q gen UJGen \
+# tools/coqchk.sh : re-check every compiled Props module, every link module of coq/gen (regenerated from /repo and compiled into build/coqchk-gen
+# first) and everything they depend on with Coq's independent checker; prints the axiom summary
+G=/verif/build/coqchk-gen; rm -rf $G; PYTHONPATH=/verif/harness python3 /verif/tools/gen_all.py $G || exit 1
+cd /verif/coq && timeout 3000 coqchk -silent -o -Q theories UJ -Q $G UJGen \
   $(ls theories/Props/*.v | sed 's|theories/|UJ.|; s|/|.|g; s|\.v$||') \
-  $(ls gen/*Link.vo 2>/dev/null | sed 's|gen/|UJGen.|; s|\.vo$||')
+  $(ls $G/*Link.vo | sed "s|$G/|UJGen.|; s|\.vo$||")
+rm -rf $G
